@@ -328,10 +328,14 @@ func bucketOp(t *rapid.T, e *drv.Env, cfg Cfg, txid int, m *model.Bucket, readOn
 			key = drv.B{}
 		} else {
 			c2 := cfg
-			c2.Large = false
+			// bucket names are keys: mostly short, now and then as long as other keys (up to two pages)
+			c2.Large = cfg.Large && rapid.IntRange(0, 11).Draw(t, "longname") == 0
 			key = Key(t, mb, c2, ps)
-			if key.N > 64 {
+			if key.N > 64 && !c2.Large {
 				key.N = 64
+			}
+			if key.N > 2*ps {
+				key.N = 2 * ps
 			}
 		}
 		op.Key = &key
@@ -418,7 +422,7 @@ func bucketOp(t *rapid.T, e *drv.Env, cfg Cfg, txid int, m *model.Bucket, readOn
 	case drv.OpSetSeq:
 		op.U = rapid.SampledFrom([]uint64{0, 1, 2, 7, 1 << 32, ^uint64(0) - 1, ^uint64(0)}).Draw(t, "seqval")
 	case drv.OpFill:
-		op.F = rapid.SampledFrom([]float64{0.1, 0.3, 0.5, 0.9, 1.0}).Draw(t, "fill")
+		op.F = rapid.SampledFrom([]float64{0.1, 0.3, 0.5, 0.9, 1.0, 0.5, 0.0, 0.05, 1.5}).Draw(t, "fill") // out-of-range values are clamped by the library
 	case drv.OpCursor:
 		op.Cur = CursorCalls(t, mb, cfg, ps, rapid.IntRange(1, 12).Draw(t, "ncalls"))
 	case drv.OpBulkPut, drv.OpBulkDel:
